@@ -161,6 +161,54 @@ CLAIMED = {
                  "Feasibility and descent of L-BFGS-B/SLSQP are trusted, not decided.",
         "note": _TB + "; scipy.optimize.minimize signature",
     },
+    "C03": {
+        "technique": "static analysis: interpretation of the seven symbolic derivative builders with sympy replaced by a "
+                     "formal derivative operator over opaque atoms at four small shapes; entry-wise identity against the "
+                     "declared row/column order; refresh tracking; shape inference",
+        "level": "Decides which component is differentiated w.r.t. which symbol and where it is stored (jacobian, grad, "
+                 "diff_jacobian, grad_jacobian, and the Cao et al. rate-change statistics), that each builder rebuilds what it "
+                 "differentiates, and that matrix evaluators keep two dimensions. sympy's diff and the compiled numerics are trusted.",
+        "note": _TB,
+    },
+    "C07": {
+        "technique": "static analysis: interpretation of BaseLoss's column-selection and chain-rule routines over arrays of "
+                     "symbols for 105 orders of target parameters / observed states / target states; argument binding of the "
+                     "sensitivity integrations",
+        "level": "Decides that gradient component o is the chain rule over the sensitivity columns of free variable o, in the "
+                 "order the free variables were supplied, parameters first then initial values, evaluated on the same "
+                 "integration; and that the integrations start from zeros/identity with matching (func, jac). Together with C13 "
+                 "(layout of the integrated system) and C14 (diff_loss) this is the repo-owned part of 'gradient = derivative of "
+                 "cost'; the integrator's numerics are not decided.",
+        "note": _TB,
+    },
+    "C13": {
+        "technique": "static analysis: interpretation of the sensitivity right-hand sides and their Jacobians over arrays of "
+                     "symbols at five small shapes, with numpy reshape/kron/dot/bmat semantics re-implemented in the checker; "
+                     "entry-wise polynomial identity against the variational equations in the documented layout",
+        "level": "Decides that the augmented systems evaluate to [f; vec(JS+G); vec_F(J IV)] in the documented layout for "
+                 "both arrangements and that the supplied Jacobians are the derivatives of those systems (blocks J, H.S+GJ, "
+                 "I(x)J), at shapes (2,3),(3,2),(1,2),(2,1),(3,3),(2,0). One known finding: the by_state=True Jacobian. Matching "
+                 "finite differences of solutions (solver numerics) is not decided.",
+        "note": _TB + "; fixed small shapes (layout errors are dimension-generic and show at non-square shapes)",
+    },
+    "C14": {
+        "technique": "static analysis: interpretation of the kernels' straight-line numpy code into canonical rational "
+                     "functions over log/lgamma atoms with helper inlining; polynomial identity against reference "
+                     "log-densities; structural differentiation",
+        "level": "Proves as identities of canonical forms, for all y, yhat, spread in the positive domain, that each loss is "
+                 "minus the summed reference log-density (Square: sum of squared weighted residuals) and that diff_loss / "
+                 "diff2Loss are the first / second derivatives of the unweighted loss. Shape handling and floating point are "
+                 "not decided.",
+        "note": _TB + "; reference table sa/specs/densities.py",
+    },
+    "C20": {
+        "technique": "static analysis: interpretation of sens_to_jtj, eval_forwardforward and BaseLoss.hessian over arrays of "
+                     "symbols; entry-wise polynomial identity against the Gram form and the second-order variational equations",
+        "level": "Decides that jtj is the Gram matrix of the weighted target sensitivities (hence symmetric PSD), that the "
+                 "terms of the second-order system that are present are right, and that hessian = 2 JTJ + sum diff_loss * "
+                 "second-order sensitivities. One known finding: the mixed terms of the second-order system are missing.",
+        "note": _TB,
+    },
 }
 
 NOT_APPLICABLE = {}
